@@ -41,32 +41,46 @@ RoundTrip(h) ==
 
 MethodsOf(kd) == IF kd = "STD" THEN {"ov", "find", "nosuf"} ELSE {"lm"}
 
+\* entry "stream": a resumable byte source that has delivered only `avail` symbols so far and answers
+\* None when they are used up; more arrive later (action Arrive).  The overlapping and no-suffix
+\* iterators keep their state across such a pause.
 NewIterator(h, m, entry, hay) ==
   /\ Len(iters) < MaxIters /\ nact < MaxActs
   /\ m \in MethodsOf(autos[h].kind) /\ (m = "lm" => entry = "slice")
+  /\ (entry = "stream" => m \in {"ov", "nosuf"})
   /\ iters' = Append(iters, [h |-> h, m |-> m, entry |-> entry, hay |-> hay, it |-> NewIter(m),
-                             out |-> <<>>, done |-> FALSE])
+                             out |-> <<>>, done |-> FALSE, lastres |-> "new",
+                             avail |-> IF entry = "stream" THEN 0 ELSE Len(hay)])
   /\ hist' = Append(hist, [op |-> "iter", it |-> Len(iters) + 1, h |-> h, method |-> m,
                            entry |-> entry, hay |-> hay])
+  /\ nact' = nact + 1 /\ UNCHANGED autos
+
+Arrive(i, n) ==
+  /\ nact < MaxActs
+  /\ iters[i].entry = "stream" /\ n > iters[i].avail /\ n <= Len(iters[i].hay)
+  /\ iters' = [iters EXCEPT ![i].avail = n, ![i].done = FALSE]
+  /\ hist' = Append(hist, [op |-> "arrive", it |-> i, avail |-> n])
   /\ nact' = nact + 1 /\ UNCHANGED autos
 
 NextOn(i) ==
   /\ nact < MaxActs
   /\ LET ir == iters[i]
-         sy == ByteSyms(ir.hay)
+         sy == SubSeq(ByteSyms(ir.hay), 1, ir.avail)
          r  == NextCall(autos[ir.h].nfa, ir.it, sy, "B") IN
      /\ iters' = [iters EXCEPT ![i].it = r.it,
                                ![i].out = IF r.m = <<>> THEN @ ELSE Append(@, r.m),
-                               ![i].done = (r.m = <<>>)]
+                               ![i].done = (r.m = <<>>),
+                               ![i].lastres = IF r.m = <<>> THEN "none" ELSE "match"]
      /\ hist' = Append(hist, [op |-> "next", it |-> i, res |-> IF r.m = <<>> THEN <<>> ELSE <<r.m>>,
                               pulled |-> IF ir.m = "lm" THEN 0 ELSE Pulled(r.it, sy)])
   /\ nact' = nact + 1 /\ UNCHANGED autos
 
 Next == \/ \E k \in 1..Len(Menu) : Build(k)
         \/ \E h \in 1..Len(autos) : RoundTrip(h)
-        \/ \E h \in 1..Len(autos), m \in {"ov", "find", "nosuf", "lm"}, e \in {"slice", "iter"},
+        \/ \E h \in 1..Len(autos), m \in {"ov", "find", "nosuf", "lm"}, e \in {"slice", "iter", "stream"},
               hay \in Hays : NewIterator(h, m, e, hay)
         \/ \E i \in 1..Len(iters) : NextOn(i)
+        \/ \E i \in 1..Len(iters) : \E n \in 1..Len(iters[i].hay) : Arrive(i, n)
 Spec == Init /\ [][Next]_vars
 
 \* ---- theorems --------------------------------------------------------------------------------
@@ -77,7 +91,9 @@ Interleaved ==
   \A i \in 1..Len(iters) :
     LET ir == iters[i] so == Solo(ir) IN
     /\ Len(ir.out) <= Len(so) /\ SubSeq(so, 1, Len(ir.out)) = ir.out
-    /\ ir.done => ir.out = so
+    /\ (ir.done /\ ir.avail = Len(ir.hay)) => ir.out = so
+    \* a paused stream has reported everything that ends inside what has arrived
+    /\ ir.done => \A k \in 1..Len(so) : so[k][2] <= ir.avail => k <= Len(ir.out)
 \* and that uninterrupted run means what Semantics says (restored automata included: C09)
 Meaning ==
   \A i \in 1..Len(iters) :
@@ -86,8 +102,9 @@ Meaning ==
 Lazy ==
   \A i \in 1..Len(iters) :
     LET ir == iters[i] IN
-    ir.m # "lm" /\ Len(ir.out) > 0 /\ ~ir.done /\ ir.it.pend = 0 =>
-       Pulled(ir.it, ByteSyms(ir.hay)) = ir.out[Len(ir.out)][2]
+    /\ (ir.m # "lm" /\ ir.lastres = "match" /\ ir.it.pend = 0 =>
+          Pulled(ir.it, ByteSyms(ir.hay)) = ir.out[Len(ir.out)][2])
+    /\ (ir.m # "lm" => Pulled(ir.it, ByteSyms(ir.hay)) <= ir.avail)
 
 \* ---- replay output: one line per complete behaviour ---------------------------------------------
 Emit == nact = MaxActs => PrintT(<<"REPLAY", ToJson([t |-> "history", ops |-> hist])>>)
